@@ -8,10 +8,22 @@
   status := idle | pending | dead | (ok N) | (err CLASS V)
   reqs   := ((get C) | (put I BODY ANS))*  requests Consul PROCESSED for that caller
   store  := (raft entry)
+
+  ENVIRONMENT-LEVEL stream (the first element of the input is a list), see harness/props/c07/envstream.go:
+
+  input  := (hooks reqs nTasks)             harness/envh's format (Driver/EnvCommon.lean), requests T | C | D
+  obs    := (E (cls state rn var (n…)) …)   per request: error class, state, currentRunNumber and the
+                                            run_number variable afterwards, run numbers published (STARTED)
+
+  Model: the environment machine of Model/Env.lean decides results, states and which requests are
+  attempts; the NUMBERS come from Model/RunAttempts.lean (one call of the protocol per attempt, the
+  counter starting absent): number k of the machine is the number obtained by the k-th call.
 -/
 import ControlModel.Basic
 import ControlModel.Model.RunNumber
+import ControlModel.Model.RunAttempts
 import ControlModel.Spec.C07
+import Driver.EnvCommon
 
 namespace Driver.C07
 open RunNumber
@@ -78,10 +90,56 @@ def parseCall : SExp → Option CallObs
     pure { caller := (← c.nat?), ok := ok, started := t.nat?.getD 0, ended := t'.nat?.getD 0, refused := refused }
   | _ => none
 
+/-! ### environment-level stream -/
+
+def iresClass : EnvM.IRes → String
+  | .ok => "ok"
+  | .err cls _ => cls
+
+def nums (l : List Nat) : SExp := .list (l.map SExp.ofNat)
+
+/-- The model's observation of a request history. -/
+def envModel (i : Driver.EnvCommon.Input) : SExp :=
+  let reqs := i.reqs
+  let rs := EnvM.runSeq i.hooks i.nTasks {} reqs
+  let as := RunAttempts.atts i.hooks i.nTasks {} reqs
+  let ns := RunAttempts.attempts RunAttempts.codeEnvCfg codeProto ⟨none, 0⟩ 0 as
+  -- what the successive calls (made and not failing) returned
+  let calls := (as.zip ns).filterMap fun (a, n) => if a.call == .ok then some n else none
+  -- the machine's number k is the number of the k-th such call (0 = no number)
+  let real (k : Nat) : SExp :=
+    if k == 0 then .ofNat 0 else
+      match calls[k - 1]? with
+      | some (some n) => .ofNat n
+      | _ => .atom "?"
+  .list (.atom "E" :: (rs.zip ns).map fun (r, n) =>
+    .list [.atom (iresClass r.2.1.toIRes), .atom r.2.2.st.name, real r.2.2.rn,
+           (match r.2.2.vars.rnVar with | none => .atom "absent" | some k => real k),
+           nums n.toList])
+
+/-- The numbers each request published, read back from the implementation's observation. -/
+def parseEnvObs : SExp → Option (List (List Nat))
+  | .list (.atom "E" :: es) => es.mapM? fun
+    | .list [_, _, _, _, .list ns] => ns.mapM? SExp.nat?
+    | _ => none
+  | _ => none
+
+def processEnv (inp impl : String) : String :=
+  match Driver.EnvCommon.parseInput inp with
+  | none => "BADINPUT\t0\t-"
+  | some i =>
+    if i.preqs.any (fun | .par .. => true | .one _ => false) then "BADINPUT\t0\t-" else
+    let model := envModel i
+    let spec := match (SExp.parse impl).bind parseEnvObs with
+      | some pubs => SpecEnv pubs
+      | none => false            -- a panic or an unparsable observation is never accepted
+    s!"{model}\t{if spec then 1 else 0}\t-"
+
 def processLine (line : String) : String :=
   match SExp.fields line with
   | [inp, impl] =>
     match SExp.parse inp with
+    | some (.list [.list _, .list _, _]) => processEnv inp impl
     | some (.list [n, st, .list steps]) =>
       match n.nat?, parseStore st, steps.mapM? parseStep with
       | some n, some st, some sched =>
